@@ -14,7 +14,7 @@
    and logging dropped; the MessageSender is a scripted [reply]; virtual time in
    nanoseconds; opening a stream and writing take no virtual time. *)
 From Verif.Lib Require Import GoSem Bits.
-From Verif.Gen Require Import Consts.
+From Verif.Gen Require Import Consts Dispatch.
 From Verif.Model Require Import PeerRecord.
 Local Open Scope Z_scope.
 
@@ -118,7 +118,7 @@ Definition get_providers (rp : reply) : res provs_result :=
   end.
 
 (* Ping (protocol_messenger.go:252-274): `resp.Type` is a direct field read *)
-Definition Message_PING : Z := 5.
+(* Message_PING: Gen/Dispatch.v, from pb/dht.pb.go *)
 Definition ping (rp : reply) : res (option cerr) :=
   match rp with
   | RErr => Ok (Some ESend)
